@@ -155,4 +155,25 @@ def tickV2 (s : LayoutV2) : Except Crash (LayoutV2 × CustomEv) :=
     | .error c => .error c
     | .ok (l, cu) => .ok ({ s with lay := l }, cu)
 
+
+/-- `ChordsV2::drain_releases` before the press-list repair: the heapless Vec of 16 presses had a
+`debug_assert!(overflow.is_ok())`, which the 17th press queued between two ticks trips in debug builds -/
+def drainReleasesDbg : List Queued → Nat → List ActiveChord → List Queued →
+    Except Crash (List Queued × List ActiveChord × List Queued)
+  | [], _, achs, dq => .ok ([], achs, dq)
+  | qd :: rest, np, achs, dq =>
+    match qd.ev with
+    | .press _ =>
+      if np ≥ SMOL_Q_LEN then .error (.indexOOB "drain_releases: presses overflow") else
+      match drainReleasesDbg rest (np + 1) achs dq with
+      | .error c => .error c
+      | .ok (k, achs, dq) => .ok (qd :: k, achs, dq)
+    | .release c =>
+      let achs := releaseKeyInActive achs c.2
+      if np == 0 then drainReleasesDbg rest np achs (smolPush dq qd)
+      else
+        match drainReleasesDbg rest np achs dq with
+        | .error c => .error c
+        | .ok (k, achs, dq) => .ok (qd :: k, achs, dq)
+
 end KVerif.L.Pinned
